@@ -146,6 +146,18 @@ func (u *PsipURI) Truncate() {
 func (u *PsipURI) AdjustOffs(newpos PField) bool {
 	offs := newpos.Offs // new start
 	end := offs + newpos.Len
+	// the new position must hold the whole URI text, delimiters included
+	// (the sum of the component lengths below does not count them)
+	uend := u.Scheme.Offs + u.Scheme.Len
+	for _, f := range [...]PField{u.User, u.Pass, u.Host, u.Port,
+		u.Params, u.Headers} {
+		if f.Offs != 0 && f.Offs+f.Len > uend {
+			uend = f.Offs + f.Len
+		}
+	}
+	if uend-u.Scheme.Offs > newpos.Len {
+		return false
+	}
 	if (u.Scheme.Len + u.User.Len + u.Pass.Len + u.Host.Len + u.Port.Len +
 		u.Params.Len + u.Headers.Len) > newpos.Len {
 		if DBGon() {
